@@ -161,3 +161,76 @@ func c12RandomTrees(rep *vk.Report, base, n int) {
 		}
 	})
 }
+
+// c12SameInstanceSequences: ONE breaker, ONE fallback and ONE retry policy, each built with a random condition list, are
+// shown a sequence of different outcomes (same wrapper types around different causes, matching and not matching, in both
+// orders). Every outcome must be classified on its own merits: a verdict reached for one outcome must not stick to the next.
+func c12SameInstanceSequences(rep *vk.Report, idx int) {
+	r := vk.Rng(rep.Seed, "C12s", idx)
+	leaves := []error{errE1, errE2, errE3, valErr{4}, &ptrErr{4}, isE1{}}
+	gen := func() (error, string) {
+		l := leaves[r.IntN(len(leaves))]
+		name := fmt.Sprintf("%T", l)
+		switch r.IntN(5) {
+		case 0:
+			return l, name
+		case 1:
+			return fmt.Errorf("w: %w", l), "wrap(" + name + ")"
+		case 2:
+			return fmt.Errorf("ww: %w", fmt.Errorf("w: %w", l)), "wrap(wrap(" + name + "))"
+		case 3:
+			return errors.Join(errE3, l), "join(E3," + name + ")"
+		}
+		return fmt.Errorf("m: %w and %w", errE3, l), "multi(E3," + name + ")"
+	}
+	kinds := []string{"E", "EE", "Tv", "Tvp", "Tp", "Tpv", "TT", "R", "I"}
+	var cs condSet
+	for k := r.IntN(3); k >= 0; k-- {
+		cs = append(cs, kinds[r.IntN(len(kinds))])
+	}
+	cbb := circuitbreaker.Builder[int]().WithFailureThreshold(1000)
+	applyHandle[circuitbreaker.CircuitBreakerBuilder[int]](cbb, cs)
+	cb := cbb.Build()
+	fbb := fallback.BuilderWithResult[int](-1)
+	applyHandle[fallback.FallbackBuilder[int]](fbb, cs)
+	applied := 0
+	fbb.OnFallbackExecuted(func(failsafe.ExecutionDoneEvent[int]) { applied++ })
+	fb := fbb.Build()
+	rpb := retrypolicy.Builder[int]().WithMaxRetries(1)
+	applyHandle[retrypolicy.RetryPolicyBuilder[int]](rpb, cs)
+	rp := rpb.Build()
+	n := 4 + r.IntN(8)
+	var seen []string
+	for i := 0; i < n; i++ {
+		err, shape := gen()
+		res := []int{0, 7, 9}[r.IntN(3)]
+		if r.IntN(6) == 0 {
+			err, shape = nil, "nil"
+		}
+		seen = append(seen, fmt.Sprintf("(%d,%s)", res, shape))
+		want := cs.isFailure(res, err)
+		wantCB := want
+		f0, a0 := cb.Metrics().Failures(), applied
+		if r.IntN(2) == 0 {
+			failsafe.Get(func() (int, error) { return res, err }, cb)
+		} else if err != nil {
+			cb.RecordError(err) // an error recorded on its own: the outcome is (zero value, err)
+			wantCB = cs.isFailure(0, err)
+		} else {
+			cb.RecordResult(res)
+		}
+		failsafe.Get(func() (int, error) { return res, err }, fb)
+		calls := 0
+		failsafe.Get(func() (int, error) { calls++; return res, err }, rp)
+		rep.Eval()
+		gotCB, gotFB, gotRP := cb.Metrics().Failures() == f0+1, applied == a0+1, calls == 2
+		if gotCB != wantCB || gotFB != want || gotRP != want {
+			rep.Violate(idx, "C12/verdict-depends-on-earlier-outcomes", fmt.Sprintf("conditions %v on ONE breaker, fallback and retry policy; outcome #%d %s after %v: breaker failure=%v fallback applied=%v retried=%v, rule says %v (breaker: %v)", []string(cs), i, seen[i], seen[:i], gotCB, gotFB, gotRP, want, wantCB), map[string]any{"conditions": cs, "outcomes": seen})
+			return
+		}
+	}
+	rep.Count("same_instance_sequences", 1)
+	if idx%5 == 0 {
+		rep.Distinct(fmt.Sprintf("seq|%v|%d", cs, n))
+	}
+}
